@@ -543,6 +543,7 @@ pub fn partition_scenario(ch: &mut Chooser, thorough: bool) -> Exec {
     }
     let mut sim = b.build();
     let res: Rc<RefCell<Option<(usize, Result<(), String>)>>> = Rc::new(RefCell::new(None));
+    let second_res: Rc<RefCell<Option<Result<(), String>>>> = Rc::new(RefCell::new(None));
     let accepted: Rc<RefCell<u32>> = Rc::new(RefCell::new(0));
     let step_now: Rc<RefCell<usize>> = Rc::new(RefCell::new(0));
     let ctl: Rc<RefCell<Option<u8>>> = Rc::new(RefCell::new(None));
@@ -559,9 +560,9 @@ pub fn partition_scenario(ch: &mut Chooser, thorough: bool) -> Exec {
             }
         }
     };
-    let (res2, sn2) = (res.clone(), step_now.clone());
+    let (res2, sn2, res_second) = (res.clone(), step_now.clone(), second_res.clone());
     let connector = move || {
-        let (res2, sn2) = (res2.clone(), sn2.clone());
+        let (res2, sn2, res_second) = (res2.clone(), sn2.clone(), res_second.clone());
         async move {
             tokio::time::sleep(std::time::Duration::from_millis(1)).await;
             let r = TcpStream::connect(("lst", 80)).await;
@@ -576,8 +577,28 @@ pub fn partition_scenario(ch: &mut Chooser, thorough: bool) -> Exec {
                     None
                 }
             };
+            // a second attempt well after the fault (and its repair, if any)
+            while *sn2.borrow() < 12 {
+                tokio::time::sleep(std::time::Duration::from_millis(1)).await;
+            }
+            let r2 = tokio::time::timeout(std::time::Duration::from_millis(8), TcpStream::connect(("lst", 80))).await;
+            let keep2 = match r2 {
+                Ok(Ok(s)) => {
+                    *res_second.borrow_mut() = Some(Ok(()));
+                    Some(s)
+                }
+                Ok(Err(e)) => {
+                    *res_second.borrow_mut() = Some(Err(errk(&e)));
+                    None
+                }
+                Err(_) => {
+                    *res_second.borrow_mut() = Some(Err("still pending after 8 steps".into()));
+                    None
+                }
+            };
             std::future::pending::<()>().await;
             drop(keep);
+            drop(keep2);
             Ok(())
         }
     };
@@ -598,6 +619,8 @@ pub fn partition_scenario(ch: &mut Chooser, thorough: bool) -> Exec {
                 match c {
                     Some(0) => turmoil::partition("con", "lst"),
                     Some(1) => turmoil::partition_oneway("con", "lst"),
+                    Some(2) => turmoil::repair("con", "lst"),
+                    Some(3) => turmoil::repair_oneway("con", "lst"),
                     _ => {}
                 }
                 tokio::time::sleep(std::time::Duration::from_millis(1)).await;
@@ -606,7 +629,7 @@ pub fn partition_scenario(ch: &mut Chooser, thorough: bool) -> Exec {
     });
     let mut obs: Vec<String> = vec![];
     let mut violation: Option<Violation> = None;
-    let total = 16;
+    let total = 24;
     if held {
         sim.hold("con", "lst");
         obs.push("hold(con, lst) before step 0".into());
@@ -635,12 +658,14 @@ pub fn partition_scenario(ch: &mut Chooser, thorough: bool) -> Exec {
         }
         if let (Some(f), Some(r)) = (fault_effective, repair_after) {
             if k == f + r {
-                if kind == 0 {
+                if from_host {
+                    *ctl.borrow_mut() = Some(2 + kind as u8);
+                } else if kind == 0 {
                     sim.repair("con", "lst")
                 } else {
                     sim.repair_oneway("con", "lst")
                 }
-                obs.push(format!("before step {k}: repair"));
+                obs.push(format!("{} step {k}: {}", if from_host { "in" } else { "before" }, if kind == 0 { "repair(con, lst)" } else { "repair_oneway(con, lst)" }));
             }
         }
         if let Err(e) = vx_core::catch(|| sim.step()).unwrap_or_else(|p| Err(p.into())) {
@@ -650,7 +675,8 @@ pub fn partition_scenario(ch: &mut Chooser, thorough: bool) -> Exec {
     }
     let got = res.borrow().clone();
     let acc = *accepted.borrow();
-    obs.push(format!("connect result {:?}, accepted {}", got, acc));
+    let got2 = second_res.borrow().clone();
+    obs.push(format!("connect result {:?}, second connect (step 12) {:?}, accepted {}", got, got2, acc));
     // reference: the connect is issued in step 1; its SYN is due in step 3 unless the link
     // is held (then at the release, if any)
     let syn_delivery: Option<usize> = if held { release_before.map(|r| r.max(3)) } else { Some(3) };
@@ -697,8 +723,32 @@ pub fn partition_scenario(ch: &mut Chooser, thorough: bool) -> Exec {
                 ));
             }
         }
-        if violation.is_none() && acc != if syn_arrives_first { 1 } else { 0 } {
-            violation = Some(Violation::new("accept-count", format!("the listener accepted {acc} connections, expected {}", if syn_arrives_first { 1 } else { 0 })));
+        // the second attempt: the connector->listener direction is open again iff it was repaired
+        // (a hold that is still in place keeps the SYN parked: not judged)
+        // release() after a partition also undoes the partition (combining the two is
+        // documented as unsupported), so the second attempt is judged on unheld links only
+        let still_held = held;
+        let open_again = repair_after.is_some();
+        if violation.is_none() && !still_held {
+            match (&got2, open_again) {
+                (Some(Ok(())), true) => {}
+                (Some(Err(e)), false) if e == "ConnectionRefused" => {}
+                (other, _) => {
+                    violation = Some(Violation::new(
+                        "connect-after-fault",
+                        format!(
+                            "a second connect issued in step 12 returned {:?}; the connector->listener direction was {} before that: expected {}",
+                            other,
+                            if open_again { "repaired" } else { "still partitioned" },
+                            if open_again { "Ok" } else { "ConnectionRefused" }
+                        ),
+                    ));
+                }
+            }
+        }
+        let want_acc = (if syn_arrives_first { 1 } else { 0 }) + (if !still_held && open_again { 1 } else { 0 });
+        if violation.is_none() && !still_held && acc != want_acc {
+            violation = Some(Violation::new("accept-count", format!("the listener accepted {acc} connections, expected {want_acc}")));
         }
     }
     if let Some(v) = violation.as_mut() {
